@@ -46,6 +46,10 @@ pub fn check(tier: Tier) -> Check {
     // a new subscribe on the next connection complete on their own acknowledgements
     parts.push(Part::new("C05/expired", json!({"depth": tier.pick(4, 5), "expiry": 0, "secs_ago": 10, "fresh": true}), 0, tier.pick(40, 300)));
     parts.push(Part::new("C05/expired", json!({"depth": tier.pick(3, 4), "expiry": 1000, "secs_ago": 100000, "fresh": true, "sched": true}), 1, tier.pick(40, 300)));
+    // the second connection of a Context whose first one ended in a failed write of a request
+    // (a PINGREQ: flavour 8; the user's DISCONNECT with a publish outstanding: flavour 6)
+    parts.push(Part::new("C05/ops", json!({"depth": tier.pick(4, 5), "flavour": 8}), 0, tier.pick(40, 600)));
+    parts.push(Part::new("C05/ops", json!({"depth": tier.pick(4, 5), "flavour": 6}), 0, tier.pick(40, 600)));
     // two operations outstanding whose packet identifiers differ in exactly one bit
     parts.push(Part::new("C05/bits", json!({}), 0, 120));
     Check {
